@@ -22,6 +22,10 @@ def fieldNames : FieldDecl → List String
   | .struct _ fields _ => fields.map (·.1)
   | _ => []
 
+def classDefaults : FieldDecl → List (String × PyVal)
+  | .struct _ _ defaults => defaults
+  | _ => []
+
 def instAttrs : PyVal → List (String × PyVal)
   | .inst _ attrs => attrs
   | _ => []
@@ -43,10 +47,11 @@ def applyEntry (O : Oracles) (cls : FieldDecl) (x : PyVal) : EntryOp → R PyVal
   | .pickle => .ok x
   | .shallowClone kw => construct O cls (overrideKw (setFields cls x) kw)
   | .fromOtherClass ignore kw =>
-    -- every declared field is read with getattr (None when unset) and passed explicitly
+    -- every declared field is read with getattr (an unset field reads as its default, else None)
+    -- and passed explicitly
     construct O cls
       (((fieldNames cls).filter (fun n => !ignore.contains n && (lookup n kw).isNone)).map
-          (fun n => (n, (lookup n (instAttrs x)).getD .none)) ++ kw)
+          (fun n => (n, (lookup n (instAttrs x)).getD ((lookup n (classDefaults cls)).getD .none))) ++ kw)
   | .castTo => construct O cls (setFields cls x)
 
 /-- apply a chain of entry points; the first failure aborts -/
